@@ -23,16 +23,20 @@ package pogreb
 //@   requires unlocked: lockSt[fieldaddr(db, mu)] == 0 && lockSt[fieldaddr(db, maintenanceMu)] == 0
 //@   ensures unlocked: lockSt[fieldaddr(db, mu)] == 0 && lockSt[fieldaddr(db, maintenanceMu)] == 0
 //@   ensures [C12] source-listing-untouched: forall n string :: dirFid[db.opts.FileSystem][n] == old(dirFid[db.opts.FileSystem][n])
+// the list of segments and the sizes of the unsealed ones are taken in ONE critical section of the database lock
+//@   at call RUnlock@1: assert [C12] one-snapshot: forall q int :: off(segments) <= q && q < off(segments) + len(segments) ==> segOK(contents(segments)[q]) && (!contents(segments)[q].meta.Full ==> haskey(activeSegmentSizes, contents(segments)[q].id))
+//@   at call RUnlock@1: assert [C12] snapshot-complete: len(segments) == len(rangeslice#1)
 //@   at return: assert [C12] copy-has-lock-file: err == nil ==> dirFid[dstFS]["lock"] != 0
 //@   modifies *
 //@   loop 1:
 //@     invariant db == old(db) && lockSt[fieldaddr(db, mu)] == 1 && lockSt[fieldaddr(db, maintenanceMu)] == 2
-//@     invariant 0 <= rangeindex#1 && len(segments) >= 0 && (arr(segments) == 0 || (fresh(segments) && arr(segments) != arr(rangeslice#1)))
-//@     invariant forall q int :: off(segments) <= q && q < off(segments) + len(segments) ==> contents(segments)[q] != nil
+//@     invariant -1 <= rangeindex#1 && rangeindex#1 < len(rangeslice#1) && len(segments) >= 0 && (arr(segments) == 0 || (fresh(segments) && arr(segments) != arr(rangeslice#1)))
+//@     invariant len(segments) == rangeindex#1 + 1
+//@     invariant forall q int :: off(segments) <= q && q < off(segments) + len(segments) ==> segOK(contents(segments)[q]) && (!contents(segments)[q].meta.Full ==> haskey(activeSegmentSizes, contents(segments)[q].id))
 //@     invariant forall q int :: off(rangeslice#1) <= q && q < off(rangeslice#1) + len(rangeslice#1) ==> segOK(contents(rangeslice#1)[q])
 //@     modifies segments[*], mapof(activeSegmentSizes)
 //@   loop 2:
 //@     invariant db == old(db) && lockSt[fieldaddr(db, mu)] == 0 && lockSt[fieldaddr(db, maintenanceMu)] == 2
-//@     invariant 0 <= rangeindex#2 && srcFS != nil && dstFS != nil && srcFS == db.opts.FileSystem && dstFS != srcFS
+//@     invariant -1 <= rangeindex#2 && rangeindex#2 < len(segments) && srcFS != nil && dstFS != nil && srcFS == db.opts.FileSystem && dstFS != srcFS
 //@     invariant forall n string :: dirFid[db.opts.FileSystem][n] == old(dirFid[db.opts.FileSystem][n])
 //@     invariant forall q int :: off(segments) <= q && q < off(segments) + len(segments) ==> contents(segments)[q] != nil
